@@ -247,6 +247,10 @@ def features_at_node(r, node):
                 feats.append('I.source-value')
         if cl in ('LL', 'LC') and lp.get('ic'):
             feats.append('%s.ic_%s@%s' % (cl[1], kgroup(r['kind']), where))
+        if cl in ('LL', 'LC') and not lp.get('ic'):
+            feats.append('%s.noic@%s' % (cl[1], where))
+        if cl in ('LR', 'LG', 'LY', 'LZ'):
+            feats.append('%s@%s' % (cl[1], where))
         if cl in ('LL', 'LC') and r['kind'] not in TGROUP:
             zk, pz = lp.get('Zk'), mp.get('pZ')
             if zk is not None and pz is not None and Num.of(zk) != Num.of(pz):
@@ -419,6 +423,10 @@ def mesh_oracle(r):
                 lp_, mp = e['lp'], e['mna']
                 if c in ('LL', 'LC') and lp_.get('ic'):
                     feats.append('%s.ic_%s' % (c[1], kgroup(r['kind'])))
+                if c in ('LL', 'LC') and not lp_.get('ic'):
+                    feats.append('%s.noic' % c[1])
+                if c in ('LR', 'LG', 'LY', 'LZ', 'LV'):
+                    feats.append(c[1])
                 if c in ('LL', 'LC') and r['kind'] not in TGROUP:
                     zk, pz = lp_.get('Zk'), mp.get('pZ')
                     if zk is not None and pz is not None and Num.of(zk) != Num.of(pz):
@@ -570,6 +578,10 @@ def ss_oracle(r, conv):
             if sum(C[k][j] * X_[j] for j in range(n)) + sum(D[k][j] * U_[j] for j in range(len(U_))) != Fraction(e['y'][k]):
                 extraction_bad = True
     unit_neg = any(u.replace(' ', '').startswith('-') for u in ss.get('u', []))
+    pairs = [frozenset(e['n']) for e in r.get('elements', []) if lcls_of(e) == 'LR']
+    par_r = len(pairs) != len(set(pairs))
+    ext_key = ('ss:extraction:parallel-resistors(symbolic-solve)' if par_r else
+               ('ss:extraction:negated-source-expression' if unit_neg else 'ss:extraction'))
     # (1) substitution model
     for d in ss['ssnet']:
         exp = ss_expected_subst(d, conv)
@@ -597,8 +609,7 @@ def ss_oracle(r, conv):
                 y = sum(C[k][j] * X[j] for j in range(n)) + sum(D[k][j] * U[j] for j in range(len(U)))
                 st['checked'] += 1
                 if y != Fraction(yr):
-                    bad.append({'key': ('ss:extraction:negated-source-expression' if unit_neg else 'ss:extraction') if extraction_bad else
-                                'ss:response:%s%s' % ('with-ic:' if any(x0) else '', 'voltage' if yn.startswith('v_') else 'current'),
+                    bad.append({'key': 'ss:response:%s%s' % ('with-ic:' if any(x0) else '', 'voltage' if yn.startswith('v_') else 'current'),
                                 'what': 'state-space output %s = %s at s = %s, circuit analysis gives %s' % (yn, y, s0, yr)})
             for k, (xn, xr) in enumerate(zip(ss['x'], ss.get('xref', []))):
                 if xr is not None:
@@ -637,8 +648,12 @@ def ss_oracle(r, conv):
             if any(P[0] * md[i] != P[i] * md[0] for i in range(len(pts))) or (P[0] == 0) != (md[0] == 0):
                 bad.append({'key': 'ss:characteristic-polynomial:natural-frequencies',
                             'what': 'characteristic polynomial is not a constant multiple of the determinant of the MNA matrix (values %s vs %s)' % (P, md)})
-    if extraction_bad and not bad:
-        contract.append({'what': 'A, B, C, D do not reproduce an excitation of the substituted circuit'})
+    if extraction_bad:
+        # one root cause: the matrices were not extracted correctly from the substituted circuit
+        if bad:
+            bad = [{'key': ext_key, 'what': 'A, B, C, D do not reproduce Lcapy\'s own solution of the substituted circuit; e.g. ' + bad[0]['what']}]
+        else:
+            contract.append({'what': 'A, B, C, D do not reproduce an excitation of the substituted circuit'})
     return bad, contract, st
 
 
